@@ -3,6 +3,7 @@ package exec
 import (
 	"fmt"
 	"math"
+	"sort"
 	"strings"
 
 	zerr "github.com/DemoHn/Zn/pkg/error"
@@ -489,8 +490,16 @@ func evalImportStmt(vm *r.VM, node *syntax.ImportStmt) error {
 	if extModule != nil {
 		// import all symbols to current module's importRefs
 		if len(node.ImportItems) == 0 {
-			for name, val := range extModule.GetAllExportValues() {
-				if err := vm.DeclareExternalElement(r.NewIDName(name), val, extModule); err != nil {
+			// declare symbols in a fixed (sorted) order, so that a conflict always reports
+			// the same name
+			exportValues := extModule.GetAllExportValues()
+			names := make([]string, 0, len(exportValues))
+			for name := range exportValues {
+				names = append(names, name)
+			}
+			sort.Strings(names)
+			for _, name := range names {
+				if err := vm.DeclareExternalElement(r.NewIDName(name), exportValues[name], extModule); err != nil {
 					return err
 				}
 			}
